@@ -4,6 +4,7 @@ package lru
 import (
 	"errors"
 	"fmt"
+	"runtime"
 	"sort"
 	"strings"
 	"time"
@@ -178,6 +179,9 @@ type world struct {
 	// create functions that panic (seqp): planned "key#attempt"s, and the keys whose creation
 	// ended that way (a later call for such a key creates it afresh)
 	cpanicAt map[string]bool
+	// create functions that end their goroutine (runtime.Goexit)
+	cgoexitAt map[string]bool
+	helperN   int
 	poisoned map[string]bool
 	abandon  bool
 	c        *sim.Case
@@ -252,7 +256,9 @@ func (w *world) load(k string) (*item, time.Duration, error) {
 	var err error
 	if w.failAt[tag] {
 		err = errLoader
-		if w.cpanicAt[tag] {
+		if w.cgoexitAt[tag] {
+			e.FaultFired("create_function_ended_its_goroutine")
+		} else if w.cpanicAt[tag] {
 			e.FaultFired("create_function_panicked")
 		} else {
 			e.FaultFired("create_function_failed")
@@ -269,6 +275,9 @@ func (w *world) load(k string) (*item, time.Duration, error) {
 	}
 	w.inProg[k]--
 	e.Logf("load %s -> %v", tag, err == nil)
+	if w.cgoexitAt[tag] {
+		runtime.Goexit()
+	}
 	if w.cpanicAt[tag] {
 		// a creation that fails by panicking; the caller recovers
 		if w.poisoned == nil {
@@ -328,6 +337,12 @@ func (w *world) Setup(e *sim.Env) {
 			w.ttlFor[fmt.Sprintf("%s#%d", f.Node, f.Ord)] = time.Duration(f.D)
 		case "sleep":
 			w.loaderSleep[fmt.Sprintf("%s#%d", f.Node, f.Ord)] = time.Duration(f.D)
+		case "cgoexit":
+			if w.cgoexitAt == nil {
+				w.cgoexitAt = map[string]bool{}
+			}
+			w.cgoexitAt[fmt.Sprintf("%s#%d", f.Node, f.Ord)] = true
+			w.failAt[fmt.Sprintf("%s#%d", f.Node, f.Ord)] = true
 		case "cpanic":
 			if w.cpanicAt == nil {
 				w.cpanicAt = map[string]bool{}
@@ -537,7 +552,7 @@ func (w *world) doOp(idx int, name string, op sim.Op) {
 			// bulk filling (big populations): plain calls, no scheduling points inside
 			zsimrt.Unchecked(func() { id, err = w.cache.Get(op.S) })
 		} else {
-			func() {
+			call1 := func() {
 				defer func() {
 					if v := recover(); v != nil {
 						if _, ok := v.(cbPanic); !ok {
@@ -549,7 +564,33 @@ func (w *world) doOp(idx int, name string, op sim.Op) {
 					}
 				}()
 				id, err = w.cache.Get(op.S)
-			}()
+			}
+			if len(w.cgoexitAt) == 0 {
+				call1()
+			} else {
+				// some create function of this run ends its goroutine (runtime.Goexit, as t.FailNow
+				// does): calls are made from a helper goroutine that the task waits for
+				w.helperN++
+				hn := fmt.Sprintf("%s.g%d", name, w.helperN)
+				w.cur[hn], w.variants[hn] = r, op.N
+				done := make(chan struct{})
+				returned := false
+				e.Spawn(hn, func() {
+					defer close(done)
+					call1()
+					returned = true
+				}, func(v any, stack string) {
+					e.Violate(w.prop(), "panic", "panic in %s: %v", hn, v)
+				})
+				zsimrt.Recv("task:join", (<-chan struct{})(done))
+				delete(w.cur, hn)
+				delete(w.variants, hn)
+				if !returned {
+					// the goroutine is gone: the creation failed, nothing was returned to anybody
+					e.Probe("call_ended_by_goexit_in_create_function")
+					err = errLoader
+				}
+			}
 		}
 		switch {
 		case err != nil && errors.Is(err, errLoader):
@@ -704,7 +745,11 @@ func (w *world) Finished(e *sim.Env) bool {
 			}
 			w.checkNodes("after the final Clear")
 			if _, infl, _, _, _ := w.cache.State(); infl != 0 {
-				e.Violate(w.delProp(), "inflight_left", "no call is in progress but the in-flight table still has %d entries: a creation slot was left behind (the next caller of that key waits for a creation nobody runs)", infl)
+				ip := w.delProp()
+				if w.prop() == "C11" {
+					ip = "C11" // a record kept for a creation that is over is retained state
+				}
+				e.Violate(ip, "inflight_left", "no call is in progress but the in-flight table still has %d entries: a creation slot was left behind (the next caller of that key waits for a creation nobody runs)", infl)
 			}
 			w.phase = 2
 		}, nil)
